@@ -992,3 +992,38 @@ UNITS += [
                           ('C01', '__CPROVER_old(g_clock) < %s && %s < %s && g_st[2][0] == 255 && g_st[2][1] == destination' % (tk(2, 0), tk(2, 0), tk(2, 1)))]),
             {'C___deepEnter': C_ENTER}, ['C11', 'C01', 'C03', 'C18'], 1, r'^ffsm2::detail::RV_<', witness_defines=['W_MANUAL']),
 ]
+
+# ---- construction: R_(context, logger) builds the core; an automatic machine activates in its constructor
+CORE_INIT = dict(     # CoreT(context, logger) as proved in contracts/c17.py (c17.CoreT.ctor), seen with the plan data opaque
+    requires=[], assigns=['*self'],
+    ensures=['self->context == {p0} && self->logger == {p1}', 'self->registry.active == 255 && self->registry.requested == 255',
+             t_default('self->request'), t_default('self->previousTransition'), '!self->planData.planExists'])
+R_CTOR = dict(
+    requires_target=[fresh('self')], requires=[], assigns=['*self'],
+    ensures=[('C17,C01', '%s.registry.active == 255 && %s.registry.requested == 255' % (RC, RC)), ('C17,C02', t_empty(RC + '.request')), ('C17,C11', t_default(RC + '.previousTransition')),
+             ('C17,C06', '%s.context == {p0} && %s.logger == {p1}' % (RC, RC)), ('C17,C09', '!%s.planData.planExists' % RC)])
+UNITS += [
+    r_unit('ctor', '@target', R_CTOR, {'@re:^CoreT__ctor2': CORE_INIT}, ['C17', 'C01', 'C18'], 2, calls={'re:^CoreT__ctor2': 'contract'},
+           target=dict(cls=r'^ffsm2::detail::R_<', kind='ctor', name='R_', nparams=2, sig=r'^void \(Ctx &,')),
+    # automatic activation: the constructor leaves the machine active in the initial state (or where the entry guards redirected)
+    rv_unit('ctor', '@target',
+            dict(requires_target=[fresh('self'), '({p1} == (void*)0 || __CPROVER_is_fresh({p1}, sizeof(*{p1})))'],
+                 requires=[x for x in R_IE['requires'] if 'self->' not in x],
+                 assigns=IE_ASSIGNS,
+                 ensures=[(e[0], e[1].replace('self->_core', 'self->_b0._core')) if isinstance(e, tuple) else e.replace('self->_core', 'self->_b0._core') for e in R_IE['ensures']]),
+            {'@re:^R___ctor2': dict(R_CTOR, requires_target=[]), 'R___initialEnter': R_IE}, ['C01', 'C04', 'C11', 'C14', 'C17', 'C18'], 2, r'^ffsm2::detail::RV_<',
+            calls={'re:^R___ctor2': 'contract', 'R___initialEnter': 'contract'},
+            target=dict(cls=r'^ffsm2::detail::RV_<', kind='ctor', name='RV_', nparams=2, sig=r'^void \(Ctx &,'), id_suffix='.automatic'),
+]
+# ---- R_ accessors the user reads the machine through
+def r_acc(id_, name, ensures, nparams=0, **kw):
+    return r_unit(id_, '@target', dict(requires_target=[fresh('self')], requires=[], assigns=[], ensures=ensures), {}, ['C06', 'C11', 'C18'], nparams,
+                  target=dict(cls=r'^ffsm2::detail::R_<', name=name, nparams=nparams, **kw))
+UNITS += [
+    r_acc('previousTransition', 'previousTransition', [('C11', '__CPROVER_return_value == &%s.previousTransition' % RC)]),
+    r_acc('context', 'context', [('C06', '__CPROVER_return_value == %s.context' % RC)], const=False),
+]
+UNITS += [
+    r_unit('attachLogger', '@target', dict(requires_target=[fresh('self')], requires=[], assigns=[RC + '.logger'], ensures=[('C16', '%s.logger == {p0}' % RC)]), {}, ['C16', 'C18'], 1,
+           target=dict(cls=r'^ffsm2::detail::R_<', name='attachLogger', nparams=1)),
+]
